@@ -1,18 +1,8 @@
 (* C02Proofs.v — section order of the slot sequence produced by the plan. *)
 Require Import Base Syntax Front Plan.
 Require Import spec.Spec_C02 proofs.PlanProofs proofs.NumberingProofs.
+Require Export PlanDefs.
 Open Scope N_scope.
-
-Definition plan_secs (ps : list mparam) : list N := map skind_code (plan_slots ps).
-
-(* a value parameter whose struct type carries objects (F1/F2/F3 classes) *)
-Definition objstruct_value (p : mparam) : bool :=
-  is_val p && is_mstruct (mp_ty p) && negb (n_objs (mp_ty p) =? 0).
-Definition has_objstruct_value (ps : list mparam) : bool := existsb objstruct_value ps.
-
-(* an input object array together with a single output object (F4) *)
-Definition objarr_after_out (ps : list mparam) : bool :=
-  existsb (fun p => rank p =? 3) ps && existsb (fun p => rank p =? 4) ps.
 
 (* ---- generic list facts ---- *)
 
@@ -274,10 +264,6 @@ End Sorted.
 
 Definition all_nibbles : list (N * N * N * N) :=
   flat_map (fun a => flat_map (fun b => flat_map (fun c => map (fun d => (a, b, c, d)) (nseq 0 16)) (nseq 0 16)) (nseq 0 16)) (nseq 0 16).
-
-Definition quad_eqb (x y : N * N * N * N) : bool :=
-  let '(a, b, c, d) := x in let '(a', b', c', d') := y in
-  (a =? a') && (b =? b') && (c =? c') && (d =? d').
 
 Lemma pack_unpack_sweep :
   forallb (fun q => quad_eqb (unpack_counts (pack_counts q)) q) all_nibbles = true.
